@@ -1,9 +1,9 @@
 SPECIFICATION PSpec
 CONSTANTS
-  SrcSet <- SrcA
-  GateSet <- GatesA
-  OpSet <- OpsA
-  TermSet <- TermsA
+  SrcSet <- SrcC
+  GateSet <- GatesC
+  OpSet <- OpsC
+  TermSet <- TermsC
   MaxOps = 2
   Stream = TRUE
 INVARIANTS Agree ResStable HeadBound Causal CloseOrder NoStuck
